@@ -143,16 +143,22 @@ int remove(const char *path)
 	return 0;
 }
 
+int g_rmdir_errno;            /* 0: the last rmdir succeeded; else its errno */
 int rmdir(const char *path)
 {
 	CRASH_POINT("rmdir");
 	int tree = c09_tree(path);
-	/* only an empty directory can be removed */
+	/* only an existing, empty directory can be removed */
 	if (nondet_bool() || path[1] != 0 || !g_dir[tree] || !c09_tree_empty(tree)) {
-		__CPROVER_errno = nondet_int();
+		int e = nondet_int();
+		__CPROVER_assume(e != 0);
+		if (path[1] == 0 && g_dir[tree] && !c09_tree_empty(tree)) __CPROVER_assume(e == ENOTEMPTY || e == EEXIST);
+		__CPROVER_errno = e;
+		g_rmdir_errno = e;
 		return -1;
 	}
 	g_dir[tree] = 0;
+	g_rmdir_errno = 0;
 	return 0;
 }
 
